@@ -57,6 +57,27 @@ type c20In struct {
 	// the responder registered this protocol together with others in one AddStreamHandlers call
 	// (this one first): 0 alone | n with n others after it
 	RegisteredWith int `json:"registered_with,omitempty"`
+	// an earlier connect attempt of the same initiator failed on the responder without anybody
+	// being at fault (the responder's stake look-up was slow and the initiator gave up)
+	EarlierFailed bool `json:"earlier_failed,omitempty"`
+	// Reconnected only: the rest of the responder's node takes this long to digest the news that
+	// the first incarnation went away (the notifier's Disconnected call), and the new connect
+	// arrives while it does
+	NotifierHoldMs int `json:"notifier_hold_ms,omitempty"`
+}
+
+type c20Notifier struct {
+	hold    time.Duration
+	entered chan struct{}
+}
+
+func (n *c20Notifier) Connected(p2p.Peer) {}
+func (n *c20Notifier) Disconnected(p2p.Peer) {
+	select {
+	case n.entered <- struct{}{}:
+	default:
+	}
+	time.Sleep(n.hold)
 }
 type c20Obs struct {
 	ConnectOK    bool `json:"connect_ok"`
@@ -106,9 +127,19 @@ func (l *c20Log) Handle(_ context.Context, r slog.Record) error {
 	return nil
 }
 
-type c20Registry struct{}
+type c20Registry struct{ slowMs *atomic.Int64 }
 
-func (c20Registry) CheckProviderRegistered(context.Context, common.Address) bool { return true }
+func (r c20Registry) CheckProviderRegistered(ctx context.Context, _ common.Address) bool {
+	if r.slowMs != nil {
+		if d := r.slowMs.Load(); d > 0 {
+			select {
+			case <-time.After(time.Duration(d) * time.Millisecond):
+			case <-ctx.Done():
+			}
+		}
+	}
+	return true
+}
 
 func c20Run(t *testing.T, in c20In, rng *vrng) (obs c20Obs) {
 	defer func() {
@@ -127,8 +158,9 @@ func c20Run(t *testing.T, in c20In, rng *vrng) (obs c20Obs) {
 	sks := &c20KS{key: mkKey()}
 	cks := &c20KS{key: mkKey()}
 	slog_ := &c20Log{}
+	regSlow := &atomic.Int64{}
 	server, err := New(&Options{KeySigner: sks, Secret: "verif", ListenPort: 0, ListenAddr: "127.0.0.1", PeerType: p2p.PeerType(in.ServerRole),
-		Register: c20Registry{}, Logger: slog.New(slog_), MetricsReg: prometheus.NewRegistry()})
+		Register: c20Registry{regSlow}, Logger: slog.New(slog_), MetricsReg: prometheus.NewRegistry()})
 	if err != nil {
 		t.Fatal(err)
 	}
@@ -158,6 +190,11 @@ func c20Run(t *testing.T, in c20In, rng *vrng) (obs c20Obs) {
 			Handler: func(context.Context, p2p.Peer, p2p.Stream) error { return nil }})
 	}
 	server.AddStreamHandlers(all...)
+	var notif *c20Notifier
+	if in.NotifierHoldMs > 0 {
+		notif = &c20Notifier{hold: time.Duration(in.NotifierHoldMs) * time.Millisecond, entered: make(chan struct{}, 1)}
+		server.SetNotifier(notif)
+	}
 	info, _ := (&peer.AddrInfo{ID: server.host.ID(), Addrs: server.host.Addrs()}).MarshalJSON()
 	ctx, cancel := context.WithTimeout(context.Background(), 5*time.Second+time.Duration(in.DelayMs)*time.Millisecond)
 	defer cancel()
@@ -185,13 +222,35 @@ func c20Run(t *testing.T, in c20In, rng *vrng) (obs c20Obs) {
 		}
 		pid := prev.host.ID()
 		prev.Close()
-		for i := 0; i < 400; i++ { // the responder saw the connection close and unregistered the peer
+		if notif != nil {
+			select {
+			case <-notif.entered: // the news is being digested: connect now
+			case <-time.After(3 * time.Second):
+			}
+		}
+		for i := 0; i < 400 && notif == nil; i++ { // the responder saw the connection close and unregistered the peer
 			if _, ok := server.peers.getPeer(pid); !ok && len(server.host.Network().ConnsToPeer(pid)) == 0 {
 				break
 			}
 			time.Sleep(5 * time.Millisecond)
 		}
-		time.Sleep(20 * time.Millisecond)
+		if notif == nil {
+			time.Sleep(20 * time.Millisecond)
+		}
+	}
+	if in.EarlierFailed {
+		regSlow.Store(700)
+		c1, cancel1 := context.WithTimeout(context.Background(), 250*time.Millisecond)
+		_, err1 := client.Connect(c1, info)
+		cancel1()
+		regSlow.Store(0)
+		if err1 == nil {
+			t.Log("c20: the earlier attempt was meant to fail and did not")
+		}
+		time.Sleep(900 * time.Millisecond) // the responder's handler has given up by now
+		for i := 0; i < 200 && len(server.host.Network().ConnsToPeer(client.host.ID())) > 0 && err1 != nil; i++ {
+			time.Sleep(5 * time.Millisecond)
+		}
 	}
 	var first *Service
 	if in.Reincarnated {
@@ -436,6 +495,18 @@ func TestVerifC20(t *testing.T) {
 			in := c20In{Tag: "gated-past-timer", Gated: true, DelayMs: d, Streams: 1, ServerRole: 1, ClientRole: 2, ResponderDials: rd}
 			out.emitGuarded(in, c20Obs{Panic: true}, func() any { return c20Run(t, in, rng) })
 		}
+	}
+	for _, h := range []int{100, 400} {
+		for _, r := range [][2]int{{1, 2}, {2, 1}} {
+			for _, after := range []int{0, (h + 150) * 1000} { // streams while the news is digested, and once it has been
+				in := c20In{Tag: "reconnect-overtakes-disconnect-news", Streams: 2, ServerRole: r[0], ClientRole: r[1], Reconnected: true, NotifierHoldMs: h, FirstAfter: after}
+				out.emitGuarded(in, c20Obs{Panic: true}, func() any { return c20Run(t, in, rng) })
+			}
+		}
+	}
+	for _, d := range []int{0, 300} {
+		in := c20In{Tag: "earlier-attempt-failed", Gated: d > 0, DelayMs: d, Streams: 2, ServerRole: 2, ClientRole: 1, EarlierFailed: true}
+		out.emitGuarded(in, c20Obs{Panic: true}, func() any { return c20Run(t, in, rng) })
 	}
 	for i := 0; i < vcount(6, 60); i++ {
 		r := roles[rng.intn(len(roles))]
